@@ -35,7 +35,7 @@ CLAIMS["C14"] = (
     "complete operand, never inside an incomplete one, and never reorders or loses tokens; an operand without a top-level split point "
     "followed by [~] operator [>>>] is returned exactly with the flags of exactly that operator (round trip of one unit); whole chains of "
     "unary operators, operand-less operators, `op >>>` wrappers and `<<<` with arbitrary ~ flags (balanced per step): parse ∘ render = id "
-    "(branch_roundtrip_partial); overlapping "
+    "(branch_roundtrip_partial), also for several branches separated by commas and the whole macro input (input_roundtrip_partial); overlapping "
     "operators resolve to the longest documented one for all continuations/spacings; Rust's own shift/comparison/logic/assignment "
     "operators are never DSL operators. Tie: K1-parse (model + syn's answers vs the real parser: outcome class and structure) and a "
     "round-trip oracle on the real parser (structured programs over adversarial operands, rendered and re-parsed).",
